@@ -64,8 +64,10 @@ def r1_wiring(P, rep, ctx):
     base_loop = [n for n in loops if norm(n.stmt.iter) in ("schema.__bases__", "schema.__mro__[1:]", "schema.mro()[1:]")]
     ok = bool(base_loop)
     if ok:
-        body = norm(base_loop[0].stmt)
-        ok = f"check_types({norm(base_loop[0].stmt.target)}, recheck=recheck)" in body and "issubclass(" in body and "MetadataSchema" in body
+        bv = norm(base_loop[0].stmt.target)
+        bt = [t.idx for t in g.nodes if t.kind == "test" and norm(t.exprs[0]) == f"issubclass({bv}, MetadataSchema)"]
+        rc = [n.idx for n in g.nodes if n.kind == "stmt" and norm(n.stmt) == f"check_types({bv}, recheck=recheck)"]
+        ok = bool(bt) and bool(rc) and all(any(g.edge_dominates(t, "T", r) for t in bt) for r in rc) and all(g.every_path_passes(rc, base_loop[0].idx, src=t, src_label="T") for t in bt) and g.every_path_passes(bt, base_loop[0].idx, src=base_loop[0].idx, src_label="iter")
     rep.check(ok, "C13.R1", ct.qual, "check_types recurses into every MetadataSchema base of the class (registered or not)", ct.loc(), construct="base recursion of check_types",
               message="check_types does not recurse over all bases of the schema (schema.__bases__): an unregistered intermediate class with an incompatible override is never checked")
     rep.check(any("schemaFields[f].schemas" in norm(n.stmt.iter) for n in loops) and "check_types(s, recheck=recheck)" in norm(ct.node), "C13.R1", ct.qual, "check_types recurses into nested field schemas", ct.loc(), construct="nested recursion", message="check_types does not check nested schemas")
@@ -84,8 +86,8 @@ def r1_wiring(P, rep, ctx):
     d = local_defs(ov)
     rep.check([norm(v) for k, v in d.get("undecl_override", []) if v is not None] == ["actual_overrides - schema.__overrides__"] and any(n.kind == "for" and norm(n.stmt.iter) == "undecl_override" for n in g.nodes) and "hint, parent_hint = (hints[fname], base_hints[fname])" in norm(ov.node), "C13.R1", ov.qual,
               "every actual, undeclared override is compared with the inherited hint", ov.loc(), construct="override iteration", message="check_overrides does not iterate over all actual overrides that are not declared with @override")
-    un = [t for t in g.nodes if t.kind == "test" and "unreal_override :=" in norm(t.exprs[0])]
-    rep.check(bool(un) and all(g.exit not in g.reach([b for b, l in g.succ[t.idx] if l == "T"]) for t in un), "C13.R1", ov.qual, "declaring an override for a field the parents do not have raises", ov.loc(), construct="unreal override", message="a declared override without parent field is accepted")
+    un = [t for t in g.nodes if t.kind == "test" and norm(t.exprs[0]) in ("(unreal_override := (schema.__overrides__ - set(base_hints.keys())))", "(miss_override := (schema.__overrides__ - actual_overrides))")]
+    rep.check(len(un) == 2 and all(g.exit not in g.reach([b for b, l in g.succ[t.idx] if l == "T"]) for t in un) and g.every_path_passes([t.idx for t in un], g.exit), "C13.R1", ov.qual, "declaring an override for a field the parents do not have raises", ov.loc(), construct="unreal override", message="a declared override without parent field is accepted")
     do = P.func(f"{C}.detect_field_overrides")
     t = norm(do.node)
     rep.check("anns = get_annotations(schema)" in t and "base_hints = cast(Any, schema._base_typehints)" in t and "set(base_hints.keys()).intersection(new_hints)" in t, "C13.R1", do.qual, "overrides = own annotations that also occur in the bases' hints", do.loc(), construct="detect_field_overrides", message="detect_field_overrides changed shape")
@@ -326,4 +328,17 @@ def r4_wrapper_stricter(P, rep, ctx):
     bad = [r for r in rets if not (isinstance(r, ast.Constant) and r.value is False) and norm(r) not in ("rv.is_subtype(sub, base)",) and not (isinstance(r, ast.Call) and norm(r.func) == "is_subtype")]
     rep.check(not bad, "C13.R4", fi.qual, "is_subtype returns only False, the third-party verdict, or a recursive verdict", fi.loc(), construct=f"returns {[norm(r) for r in rets]}",
               message=f"is_subtype accepts on its own (`return {norm(bad[0]) if bad else ''}`): a shortcut that bypasses the structural subtype test lets incompatible overrides through (e.g. Int under a strict Float)")
+    g = ctx.cfg(fi)
+    t1 = [t.idx for t in g.nodes if t.kind == "test" and norm(t.exprs[0]) == "ann_sub != ann_base or lit_sub != lit_base"]
+    t2 = [t.idx for t in g.nodes if t.kind == "test" and norm(t.exprs[0]) == "not ann_sub"]
+    r_false = [n.idx for n in g.nodes if isinstance(n.stmt, ast.Return) and norm(n.stmt.value) == "False"]
+    r_rv = [n.idx for n in g.nodes if isinstance(n.stmt, ast.Return) and norm(n.stmt.value) == "rv.is_subtype(sub, base)"]
+    r_rec = [n.idx for n in g.nodes if isinstance(n.stmt, ast.Return) and norm(n.stmt.value) == "is_subtype(sub_args[0], base_args[0])"]
+    ok = bool(t1) and bool(t2) and bool(r_false) and bool(r_rv) and bool(r_rec) and all(g.edge_dominates(t1[0], "T", x) for x in r_false) and all(g.edge_dominates(t1[0], "F", x) and g.edge_dominates(t2[0], "T", x) for x in r_rv) and all(g.edge_dominates(t2[0], "F", x) for x in r_rec)
+    rep.check(ok, "C13.R4", fi.qual, "differently wrapped hints (Annotated / Literal on one side only) are refused; plain hints go to the structural test; Annotated hints compare their base types", fi.loc(), construct="is_subtype decision structure",
+              message="is_subtype's decision structure changed (which hints are refused outright / delegated / unwrapped)")
+    from .common import require_total
+
+    for q in ("util.typing.is_subtype", "schema.core.detect_field_overrides", "schema.core.SchemaMagic.__new__", "schema.core.infer_parent", "schema.core.is_pub_instance_field"):
+        require_total(rep, ctx, "C13.R4", P.func(q))
     rep.check(any(norm(r) == "rv.is_subtype(sub, base)" for r in rets), "C13.R4", fi.qual, "plain hints are decided by the structural subtype test", fi.loc(), construct="delegation", message="is_subtype no longer delegates to runtype")
